@@ -168,7 +168,7 @@ def container_mode(data, init):
     for k in sorted(data):
         h = zlib.crc32(np.ascontiguousarray(data[k]).tobytes()[:4096], h)
     h = zlib.crc32(np.ascontiguousarray(init).tobytes()[:4096], h)
-    return (h >> 3) % 5 if (h >> 3) % 5 <= 2 else 0        # 0 plain (3/5), 1 reused trainer + refilled buffers, 2 views
+    return (h >> 3) % 3        # 0 plain, 1 reused trainer + refilled buffers, 2 non-contiguous read-only views (a third each)
 
 
 def _other(a):
